@@ -180,7 +180,8 @@ pub fn run_batch_opt<P: Prop>(p: &P, tier: Tier, seed: u64, n_runs: u64, wall_ca
                         let mut f = found.lock().unwrap();
                         f.push(Found { idx, case, violation: v, traces: out.traces });
                         // let a few more distinct ones be found, then stop handing out work
-                        if f.len() >= 12 {
+                        // (VERIF_NO_STOP: count every violation of the batch, for rate measurements)
+                        if f.len() >= 12 && std::env::var("VERIF_NO_STOP").is_err() {
                             limit.fetch_min(idx, Ordering::SeqCst);
                         }
                     }
